@@ -60,6 +60,9 @@ def one_case(ctx, rng, wd, K=None, force=None, force_N=None):
     snaps, inf, cell = gc.static_system(rng, K=K, N=force_N, frames=frames, nmin=max(2, K), nmax=70 if not ctx.thorough else 110, retype=retype, vary_tilt=True,
                                         big="xl" if ctx.thorough else True, poskind="gas" if force_N else None)
     d = inf["d"]
+    if rng.random() < 0.12 and not force_N:
+        # the same trajectory in SI metres / in fm (R10): the bin width scales with it, g(r) is dimensionless
+        snaps, cell, inf = gc.rescale_units(snaps, cell, inf, float(rng.choice([1e-9, 1e-10, 1e5])))
     ppp = gc.random_mask(rng, d)
     gc.unwrap_in_place(rng, snaps.snapshots, inf["Hs"], ppp)       # unwrapped coordinates: the same periodic configuration
     Lmin = float(np.min(np.diag(cell["H"])))
